@@ -48,6 +48,9 @@ MCProgs(st) ==
     << Op("NR"), Rl(4096), Op("NR"), Rl(512), Op("NR") >>,
     << Op("NR"), Rd(1), Op("NR"), Op("RA"), Op("NR") >>,
     << Op("NR"), Rd(2), Rd(125), Op("RA"), Op("RM"), Op("RM") >>,
+    << Op("RJ"), Op("RJ"), Op("RJ") >>,
+    << Op("RJ"), Op("NR"), Rd(1), Op("RJ"), Op("RM") >>,
+    << Op("RM"), Op("RJ"), Ja(0) >>,
     << Ja(0), Op("NR") >>, << Ja(1), Op("NR") >>, << Op("RM"), Ja(3), Op("RM") >> }
   \cup (IF HasComp(st) THEN {} ELSE { << Op("NR"), Rd(2), Rd(125), Op("RF"), Op("RM"), Op("RM") >> })
   \cup (IF Total(st) <= 600 THEN {<< Op("NR"), Rl(1), Op("NR"), Rl(7), Op("NR") >>} ELSE {})
